@@ -136,6 +136,8 @@ class Context(interfaces.RequestProvider):
         self.client_credentials = client_credentials or CredentialsMap()
         self.server_credentials = server_credentials or CredentialsMap()
 
+        self._shut_down = False
+
     #
     # convenience methods for class instantiation
     #
@@ -512,6 +514,8 @@ class Context(interfaces.RequestProvider):
 
         self.log.debug("Shutting down context")
 
+        self._shut_down = True
+
         done, pending = await asyncio.wait(
             [
                 asyncio.create_task(
@@ -542,6 +546,10 @@ class Context(interfaces.RequestProvider):
     async def find_remote_and_interface(self, message):
         if message.remote is None:
             raise error.MissingRemoteError()
+        if self._shut_down:
+            # The request interfaces would turn the request down anyway, but
+            # only after a (possibly slow) name lookup
+            raise error.LibraryShutdown()
         for ri in self.request_interfaces:
             if await ri.recognize_remote(message):
                 return ri
